@@ -4,14 +4,18 @@ import { sweepPrograms } from "./sweep.mjs";
 import { normaliseProgram } from "./normalise.mjs";
 import { universeFor, pool } from "./universe.mjs";
 import { Prog, TYPED_ARRAYS } from "./ref.mjs";
-import { f1Depth1, f1Depth2, f3, f4, packPrograms, packInline, P, L, U, ArrT, ObjT, Prop, Typed } from "./spec.mjs";
+import { f1Depth1, f1Depth2, f1Overlap, f3, f4, packPrograms, packInline, P, L, U, ArrT, ObjT, Prop, Typed } from "./spec.mjs";
 import { f2 } from "./spec2.mjs";
 import { TIER, SEED, sliceBySeed } from "./common.mjs";
 import { freshClient } from "./runtime.mjs";
 
-export function familyPrograms({ d2slice = 8 } = {}) {
+// light: for the monitors whose per-case cost is high (C03: 4 option combinations x 3 entry points); the
+// quick tier then takes every second overlap type and a sixteenth of depth 2, the thorough tier everything
+export function familyPrograms({ d2slice = 8, light = false } = {}) {
   const progs = [];
+  if (light && TIER !== "thorough") d2slice = 16;
   progs.push(...packPrograms(f1Depth1(), 40, "F1d1"));
+  progs.push(...packInline(light && TIER !== "thorough" ? f1Overlap().filter((_, i) => i % 2 === SEED % 2) : f1Overlap(), 40, "F1x"));
   progs.push(...f2());
   progs.push(...f3());
   progs.push(...packPrograms(f4(), 40, "F4"));
